@@ -347,7 +347,20 @@ func (e *Exec) specLoc(m Clause, env *SpecEnv, add func(key, ref string)) {
 	}
 	switch y := x.(type) {
 	case *ast.CallExpr:
+		if id, ok := y.Fun.(*ast.Ident); ok && id.Name == "contents" {
+			// the contents of a map (or slice) value, not the variable or field holding it
+			v, t := e.evalSpec(y.Args[0], env)
+			addVal(v, t)
+			return
+		}
 		if id, ok := y.Fun.(*ast.Ident); ok && id.Name == "elems" {
+			if a, ok := y.Args[0].(*ast.Ident); ok && a.Name == "_" {
+				// contents of any slice
+				add("elems:Int", "")
+				add("elems:Bool", "")
+				add("elems:Ref", "")
+				return
+			}
 			v, t := e.evalSpec(y.Args[0], env)
 			addVal(v, t)
 			return
@@ -420,13 +433,7 @@ func (e *Exec) specLoc(m Clause, env *SpecEnv, add func(key, ref string)) {
 		ref := e.asInt(recv)
 		if kindOf(f.Type()) == kStruct {
 			// all fields of the embedded struct
-			sub := e.subRef(ref, fieldKey(sname, f))
-			st2, sname2 := structOf(f.Type())
-			for i := 0; st2 != nil && i < st2.NumFields(); i++ {
-				for _, k := range e.fieldHeapKeys(sname2, st2.Field(i)) {
-					add(k, sub)
-				}
-			}
+			e.addStructLocs(e.subRef(ref, fieldKey(sname, f)), f.Type(), add)
 			return
 		}
 		for _, k := range e.fieldHeapKeys(sname, f) {
@@ -455,12 +462,7 @@ func (e *Exec) specLoc(m Clause, env *SpecEnv, add func(key, ref string)) {
 					add("ptr:sl"+s, e.asInt(v))
 				}
 			case kStruct:
-				st2, sname2 := structOf(p.Elem())
-				for i := 0; st2 != nil && i < st2.NumFields(); i++ {
-					for _, k := range e.fieldHeapKeys(sname2, st2.Field(i)) {
-						add(k, e.asInt(v))
-					}
-				}
+				e.addStructLocs(e.asInt(v), p.Elem(), add)
 			default:
 				add("ptr:Int", e.asInt(v))
 			}
@@ -468,6 +470,21 @@ func (e *Exec) specLoc(m Clause, env *SpecEnv, add func(key, ref string)) {
 		}
 	}
 	e.fail("%s:%d: unsupported modifies target %s", m.File, m.Line, m.Text)
+}
+
+// addStructLocs adds every field location of the struct object at ref (recursively through embedded values).
+func (e *Exec) addStructLocs(ref string, t types.Type, add func(key, ref string)) {
+	st, sname := structOf(t)
+	for i := 0; st != nil && i < st.NumFields(); i++ {
+		f := st.Field(i)
+		if kindOf(f.Type()) == kStruct {
+			e.addStructLocs(e.subRef(ref, fieldKey(sname, f)), f.Type(), add)
+			continue
+		}
+		for _, k := range e.fieldHeapKeys(sname, f) {
+			add(k, ref)
+		}
+	}
 }
 
 func (e *Exec) fieldHeapKeys(sname string, f *types.Var) []string {
@@ -482,6 +499,9 @@ func (e *Exec) fieldHeapKeys(sname string, f *types.Var) []string {
 }
 
 func (e *Exec) checkFrame(retOrd int) {
+	if e.contract.NoFrame {
+		return
+	}
 	env := e.topEnv(e.old)
 	env.inOld = true
 	env.cur = e.old
@@ -762,6 +782,9 @@ func (e *Exec) applyContract(fn *types.Func, ct *Contract, f FuncV, args []Val, 
 		}
 		e.bindResults(env2.names, sig, res)
 		for _, en := range ct.Ensures {
+			if mentionsEvents(en.Expr) {
+				continue
+			}
 			e.assume(e.specBool(en, env2))
 		}
 		return res
@@ -770,6 +793,15 @@ func (e *Exec) applyContract(fn *types.Func, ct *Contract, f FuncV, args []Val, 
 	envOld := *env
 	envOld.cur, envOld.old, envOld.inOld = old, old, true
 	sets := e.modifiesSets(ct.Modifies, &envOld)
+	if ct.NoFrame {
+		// no frame condition: everything we know about the heap is lost
+		for k := range e.heapSort {
+			if sets[k] == nil {
+				sets[k] = &locSet{}
+			}
+			sets[k].whole = true
+		}
+	}
 	e.havocLocs(sets)
 	// the callee may allocate
 	na := e.fresh("alloc", SInt)
@@ -787,10 +819,29 @@ func (e *Exec) applyContract(fn *types.Func, ct *Contract, f FuncV, args []Val, 
 	}
 	e.bindResults(env2.names, sig, res)
 	for _, en := range ct.Ensures {
+		if mentionsEvents(en.Expr) {
+			continue // path events of the callee's own body mean nothing to a caller
+		}
 		e.assume(e.specBool(en, env2))
 	}
 	e.havocBoxed()
 	return res
+}
+
+func mentionsEvents(x ast.Expr) bool {
+	found := false
+	ast.Inspect(x, func(n ast.Node) bool {
+		if c, ok := n.(*ast.CallExpr); ok {
+			if id, ok := c.Fun.(*ast.Ident); ok {
+				switch id.Name {
+				case "called", "ncalls", "ret", "arg", "sent", "closed":
+					found = true
+				}
+			}
+		}
+		return !found
+	})
+	return found
 }
 
 func (e *Exec) applyExtern(fn *types.Func, es *ExternSpec, f FuncV, args []Val, resT types.Type, c *ast.CallExpr) Val {
